@@ -34,9 +34,10 @@ once, at the end) and class set expressions under `iv` (the specification's fold
 `close_class_set_operand`); and (stage D) `v`-mode classes with `\q{…}` strings, without `i`
 (ordered choice by descending length, `ClassSet::node`) and with `i` (strings compared and matched
 up to simple case folding: `ClassSetAlternativeStrings::fold` against `MaybeSimpleCaseFolding`).
-Not covered (the full statement is the one below without `hsup`): named back-references to
-duplicated names (needs the invariant "at most one group of a name participates", not threaded
-through the simulation) and properties of strings (the specification model does not have them).
+Not covered IN THIS FILE (the full statement is the one below without `hsup`): named back-references to
+duplicated names - proved separately in `Proofs/DupNameRef.lean` (`lower_attempt_total_dup`,
+`lower_search_total_dup`, via the invariant "at most one group of a name is defined") - and properties
+of strings (the specification model does not have them).
 The input's `unicode` flag must be the pattern's (`inp.unicode = (f.u || f.v)`, as
 `Proofs/Keystone.lean` assumes too).  Legacy (non-`u`/`v`) `i` is excluded on purpose: the crate is
 known to differ from the specification there (finding F8).
